@@ -4,7 +4,7 @@ import types, collections, logging, time, copy
 from lib import *
 
 PRE_EL = r"""From Coq Require Import QArith.
-From IQ Require Import Intervals Junctions Assigner AssignerEnds.
+From IQ Require Import Intervals Junctions AssignerDefs AssignerEndsDefs.
 From IQ.gen Require Import Tables Prims.
 Open Scope Z_scope.
 (* (params, split exons of the gene, isoform profile, isoform profile range, read gene profile, read profile range, read exons, implementation output) *)
@@ -23,7 +23,7 @@ Definition prop (c:T) : bool :=
 """
 
 PRE_VR = r"""From Coq Require Import QArith.
-From IQ Require Import Intervals Junctions Assigner AssignerEnds.
+From IQ Require Import Intervals Junctions AssignerDefs AssignerEndsDefs.
 From IQ.gen Require Import Tables Prims.
 Open Scope Z_scope.
 (* (params, isoform_id is not None, strand (1 '+', -1 '-', 0 other), isoform exons, read exons, polyA info, events passed in, implementation output) *)
